@@ -51,8 +51,18 @@ func c15(c *Ctx) {
 				}
 			}
 		}
-		scan(u.upgrade, &server)
-		scan(d.dial, &client)
+		// the announcing literal may live in a helper of Upgrade: take every package literal, split by the header-name prefix
+		var all []string
+		for _, fn := range c.P.FuncList {
+			scan(fn, &all)
+		}
+		for _, lit := range all {
+			if strings.Contains(lit, "Sec-WebSocket-Extensions") {
+				server = append(server, lit)
+			} else {
+				client = append(client, lit)
+			}
+		}
 		okS := len(server) == 1 && extensionLineOK(server[0])
 		okC := len(client) == 1 && extensionLineOK("Sec-WebSocket-Extensions: "+client[0]+"\r\n")
 		r.Check("C15.literals-agree", shortFn(u.upgrade), "announced-literal", u.upgrade.Pos(), okS, fmt.Sprintf("server announces %q: must be permessage-deflate with exactly server_no_context_takeover and client_no_context_takeover (what the client's acceptance test requires)", server))
@@ -75,7 +85,7 @@ func c15(c *Ctx) {
 				continue
 			}
 			n++
-			if fn.Parent() != nil && shortFn(fn.Parent()) == "(*PreparedMessage).frame" {
+			if (fn.Parent() != nil && shortFn(fn.Parent()) == "(*PreparedMessage).frame") || (!knownFuncs[shortFn(fn)] && strings.Contains(shortFn(fn), "PreparedMessage")) {
 				r.Check("C15.paired", shortFn(fn), "writer-only-on-private-conn", fn.Pos(), wFns[fn] && !rFns[fn], "private rendering Conn: writer only (table entry)")
 				continue
 			}
@@ -254,7 +264,7 @@ func c15levels(c *Ctx) {
 		}
 		ok, why := true, "stored under isValidCompressionLevel(level)"
 		n := 0
-		if fn.Parent() != nil {
+		if fn.Parent() != nil || (ctorStore(st) && !knownFuncs[shortFn(fn)]) {
 			// closure of PreparedMessage.frame: level copied from the key, which WritePreparedMessage takes from a live Conn
 			r.Pass("C15.level-range", shortFn(fn), "store-level-from-prepare-key", st.Pos(), "level comes from prepareKey.compressionLevel, a copy of a validated Conn.compressionLevel")
 			continue
